@@ -12,6 +12,7 @@ import WpModel.Lemmas.Tables
 import WpModel.Lemmas.TableKinds
 import WpModel.Lemmas.Threading
 import WpModel.Lemmas.SpaceFlags
+import WpModel.Lemmas.RowGroups
 
 namespace Wp.C08
 open Wp Wp.Bx Wp.TableGrid
@@ -98,6 +99,52 @@ theorem table_class_attributes :
         .TableCaptionBox].contains k) ∧
     (∀ k, Gen.isSub k .ParentBox = ![BoxKind.TextBox, .BlockReplacedBox, .InlineReplacedBox].contains k) := by
   refine ⟨?_, ?_, ?_, rfl, rfl, rfl, rfl, rfl, ?_, ?_, ?_, ?_, ?_⟩ <;> intro k <;> cases k <;> rfl
+
+/-- Do two styles agree on the entry `key` (the kind-tree model keeps `float` as two flags, `position` as two,
+`display` as the header / footer / other distinction)? -/
+def sameEntry (key : String) (a b : Style) : Bool :=
+  if key == "float" then a.flt == b.flt && a.foot == b.foot
+  else if key == "position" then a.abs == b.abs && a.run == b.run
+  else if key == "display" then a.disp == b.disp
+  else if key == "white_space" then a.ws == b.ws
+  else if key == "text_transform" then a.tt == b.tt
+  else if key == "hyphens" then a.hyph == b.hyph
+  else if key == "caption_side" then a.capBottom == b.capBottom
+  else true
+
+/-- `AnonymousStyle` as modelled (`anonStyle`) = the real class, entry by entry: the graph of
+`AnonymousStyle.__missing__` regenerated on every run says which entries an anonymous box takes from its
+parent (`white-space`, `text-transform`, `hyphens`, `caption-side`: inherited properties) and which get the
+initial value (`float`, `position`, `display`); the model does exactly that, for every parent style; and the
+seven entries are all the entries of a `Style` but the `anon` mark itself. -/
+theorem anonymous_style_inherits :
+    Gen.anonInherits.map (·.1) = ["float", "position", "display", "white_space", "text_transform", "hyphens",
+      "caption_side"] ∧
+    ∀ e ∈ Gen.anonInherits, ∀ p : Style,
+      sameEntry e.1 (anonStyle p) (if e.2 then p else {}) = true ∧ (anonStyle p).anon = true := by
+  refine ⟨by decide, ?_⟩
+  intro e he p
+  simp only [Gen.anonInherits, List.mem_cons, List.mem_nil_iff, or_false] at he
+  rcases he with rfl | rfl | rfl | rfl | rfl | rfl | rfl
+  · exact ⟨rfl, rfl⟩
+  · exact ⟨rfl, rfl⟩
+  · exact ⟨rfl, rfl⟩
+  · refine ⟨?_, rfl⟩
+    show ((anonStyle p).ws == p.ws) = true
+    unfold anonStyle; cases p.ws <;> rfl
+  · refine ⟨?_, rfl⟩
+    show ((anonStyle p).tt == p.tt) = true
+    unfold anonStyle; cases p.tt <;> rfl
+  · refine ⟨?_, rfl⟩
+    show ((anonStyle p).hyph == p.hyph) = true
+    unfold anonStyle; cases p.hyph <;> rfl
+  · refine ⟨?_, rfl⟩
+    show ((anonStyle p).capBottom == p.capBottom) = true
+    unfold anonStyle; cases p.capBottom <;> rfl
+
+example : sameEntry "white_space" { ws := .pre } {} = false ∧ sameEntry "float" { flt := true } {} = false ∧
+    (anonStyle { ws := .pre, flt := true, capBottom := true }).ws = .pre ∧
+    (anonStyle { ws := .pre, flt := true, capBottom := true }).flt = false := by decide
 
 /-- CSS 2.1 §9.7 / css-display-3 §2.7: the display a floated, absolutely positioned or root element
 must compute to. -/
@@ -746,6 +793,39 @@ theorem table_fixup_other (b b' : KBox) (hrun : b.st.run = false) (hp : b.isA .P
   rcases hks o ho with ⟨_, h1⟩ | ⟨_, h1⟩
   · exact h1
   · rcases h1 with h1 | h1 <;> rw [h1] <;> rfl
+
+/-- CSS 2.1 §17.2, the order of row groups — for every table and every list of children: the table
+`wrap_table` puts in the wrapper holds the row groups (the given ones and the anonymous ones made for stray
+rows, `rowGroups0`) in the order `orderedGroups`: the **first** group with `display: table-header-group`
+first, marked `is_header`; the **first** with `table-footer-group` last, marked `is_footer`; all others —
+further header / footer groups included — in document order in between.  (`groupKey`: class, style, element
+attributes, marks and number of rows, i.e. everything but the `grid_x` / `rowspan` written on the cells.) -/
+theorem wrap_table_row_group_order (n : Nat) (box : KBox) (children : List KBox) (w : KBox)
+    (h : wrapTable (n + 1) box children = .ok w) :
+    ∃ columns rows caps rowGroups0 table, sortTableKids children = .ok (columns, rows, caps) ∧
+      wrapImproper n box rows .TableRowGroupBox (fun c => c.isA .TableRowGroupBox) [] = .ok rowGroups0 ∧
+      table ∈ w.kids ∧ table.kind = box.kind ∧ table.kids.map groupKey = (orderedGroups rowGroups0).map groupKey :=
+  wrapTable_groups n box children w h
+
+/-- … and nothing is lost or duplicated: the first header group, the groups in between and the first footer
+group are the row groups of the table, each exactly once. -/
+theorem row_groups_conserved (gs : List KBox) :
+    ((gs.find? isHeaderGroup).toList ++ (gs.eraseP isHeaderGroup).eraseP isFooterGroup ++
+      (gs.find? isFooterGroup).toList).Perm gs ∧ (orderedGroups gs).length = gs.length := by
+  refine ⟨splitGroups_perm gs, ?_⟩
+  have := (splitGroups_perm gs).length_eq
+  simp only [orderedGroups, List.length_append, Option.toList_map, List.length_map] at this ⊢
+  exact this
+
+/-- Groups with displays `body, header, footer, header, footer, body` (numbered 1-6): 2 first as header,
+3 last as footer, the second header / footer groups 4 and 5 stay where they are as bodies. -/
+example :
+    let g (n : Int) (d : GDisp) : KBox := .mk .TableRowGroupBox { disp := d } { span := some n } {} [] [] []
+    (orderedGroups [g 1 .other, g 2 .header, g 3 .footer, g 4 .header, g 5 .footer, g 6 .other]).map
+      (fun (x : KBox) => (x.el.span, x.inst.isHeader, x.inst.isFooter)) =
+    [(some 2, true, false), (some 1, false, false), (some 4, false, false), (some 5, false, false),
+     (some 6, false, false), (some 3, false, true)] := by
+  decide
 
 /-- Rule 3.2 — *which* anonymous table: under a parent that is no table part, every child after the
 fix-up is a (fixed-up) child of the box that is no internal table box, or an anonymous table wrapper
